@@ -576,8 +576,12 @@ class RequestHandler(BaseProtocol, Generic[_Request]):
         connection when handlers done processing messages.
         """
         self._close = True
-        if self._waiter:
-            self._waiter.cancel()
+        waiter = self._waiter
+        if waiter is not None:
+            if waiter.done():
+                # A request has just arrived and is about to be handled.
+                return
+            waiter.cancel()
             # Idle, waiting for the next request: there is no handler to let
             # finish, so the connection is closed right away.
             if self.transport is not None:
